@@ -195,6 +195,9 @@ func c14Ops(rng *rand.Rand, nsvc int, empty bool) []c14Op {
 		{"WithServicesLabelsResolved", func(p *types.Project) (*types.Project, error) {
 			return p.WithServicesLabelsResolved(rng.Intn(2) == 0)
 		}},
+		// with the file references discarded: applied to its own result there is no file left to read
+		{"WithServicesLabelsResolved(discard)", func(p *types.Project) (*types.Project, error) { return p.WithServicesLabelsResolved(true) }},
+		{"WithServicesEnvironmentResolved(discard)", func(p *types.Project) (*types.Project, error) { return p.WithServicesEnvironmentResolved(true) }},
 	}
 }
 
@@ -301,8 +304,10 @@ func C14(c *core.Ctx) {
 			}
 			op := ops[rng.Intn(len(ops))]
 			empty := false
-			if s < len(ops) && step == 0 {
-				op = ops[s] // every operation at least once on the fully populated project
+			if s < len(ops) && step <= 1 {
+				// every operation at least once on the fully populated project, and once more on its own result (an operation
+				// that finds nothing left to do must still return a project of its own)
+				op = ops[s]
 			} else if s < 2*len(ops) && step == 0 {
 				op, empty = ops[s-len(ops)], true // and once without any name
 			}
@@ -331,7 +336,7 @@ func C14(c *core.Ctx) {
 			}
 			clean, _ := opB.Fn(cur)
 			after := proj.Dump(cur)
-			ev := c14Event{Op: strings.TrimSuffix(strings.TrimSuffix(op.Name, "(own)"), "(again)"), Before: core.HashStr(before), After: core.HashStr(after), History: append(append([]string{}, hist...), op.Name)}
+			ev := c14Event{Op: strings.TrimSuffix(strings.TrimSuffix(strings.TrimSuffix(op.Name, "(own)"), "(again)"), "(discard)"), Before: core.HashStr(before), After: core.HashStr(after), History: append(append([]string{}, hist...), op.Name)}
 			ev.Shared = sharedObjects(cur, victim)
 			ev.TopDiff, ev.SvcDiff = topAndSvcDiff(cur, victim)
 			ev.Leaks = []string{}
